@@ -3,6 +3,7 @@ package main
 import (
 	"fmt"
 	"go/types"
+	"regexp"
 	"strings"
 
 	"golang.org/x/tools/go/ssa"
@@ -288,3 +289,48 @@ func staleScratch(c *Ctx, rule, pkg string) int {
 
 // instrDominatesStrict is a helper for the self-reach test: the allocation lies on every path from s back to the copy
 func instrDominatesStrict(def, at ssa.Instruction, from *ssa.BasicBlock) bool { return false }
+
+// pointWidth: an uncompressed elliptic-curve point is 0x04 || X || Y with BOTH coordinates in the fixed field width.
+// A byte string built as 0x04 followed directly by the minimal-length big-endian bytes of two integers
+// (big.Int.Bytes()) drops leading zero bytes: roughly one key in 128 then serialises to a string that no reader accepts.
+func pointWidth(c *Ctx, rule string, pkgs []string) int {
+	re := regexp.MustCompile(`lit\(0x4\),bytes\([^()]*(\([^()]*\))?[^()]*\),bytes\(`)
+	n := 0
+	for _, pkg := range pkgs {
+		for _, f := range c.P.RepoFuncs(pkg) {
+			if strings.HasSuffix(c.P.relFile(f.Pos()), "_test.go") {
+				continue
+			}
+			var be *bigEnv
+			k := 0
+			instrsOf(f, func(_ *ssa.BasicBlock, in ssa.Instruction) {
+				call, ok := in.(*ssa.Call)
+				if !ok {
+					return
+				}
+				bi, ok := call.Call.Value.(*ssa.Builtin)
+				if !ok || bi.Name() != "append" || !isByteSlice(call.Type()) {
+					return
+				}
+				// only the ends of append chains
+				for _, u := range *call.Referrers() {
+					if c2, ok := u.(*ssa.Call); ok {
+						if b2, ok := c2.Call.Value.(*ssa.Builtin); ok && b2.Name() == "append" && c2.Call.Args[0] == ssa.Value(call) {
+							return
+						}
+					}
+				}
+				if be == nil {
+					be = newBigEnv(f, allParamNames(f))
+				}
+				n++
+				form := stripCopies(be.bytesOf(call, call)).String()
+				if re.MatchString(form) {
+					k++
+					c.Violated(rule, fname(f), fmt.Sprintf("point encoding #%d pads both coordinates", k), "the byte string "+form+" is 0x04 followed by the minimal-length bytes of two integers: a coordinate with a leading zero byte (about one key in 128) yields an encoding of the wrong length that the parsers reject", call.Pos())
+				}
+			})
+		}
+	}
+	return n
+}
